@@ -1,9 +1,24 @@
 import KG.Base.Json
-/-! Driver entry points for property C17 (filled in by the C17 model). -/
+import KG.Driver.C01
+/-! Driver entry points for C17 (admission normalisation). -/
 namespace KG.Driver.C17
-open Lean
+open Lean KG KG.Model.Match KG.Spec.Match
 
-/-- `handle method args`: `none` when the method is unknown. -/
-def handle (_m : String) (_a : Json) : Option (Except String Json) := none
+/-- `C17.norm {rule, attrs:[…]}`: the normalised rule, the rule normalised twice, and for every request
+    the model's verdict before and after normalisation. -/
+def doNorm (a : Json) : Except String Json := do
+  let r ← KG.Driver.C01.decodeRule (← J.getObj a "rule")
+  let attrs ← (← J.getArr a "attrs").toList.mapM KG.Driver.C01.decodeAttrs
+  let n := normalizeRule r
+  pure <| J.obj [
+    ("norm", KG.Driver.C01.encodeRule n),
+    ("norm2", KG.Driver.C01.encodeRule (normalizeRule n)),
+    ("before", Json.arr (attrs.map fun x => J.bool (ruleMatches x r)).toArray),
+    ("after", Json.arr (attrs.map fun x => J.bool (ruleMatches x n)).toArray)]
+
+def handle (m : String) (a : Json) : Option (Except String Json) :=
+  match m with
+  | "norm" => some (doNorm a)
+  | _ => none
 
 end KG.Driver.C17
